@@ -2,9 +2,11 @@ package bftsim
 
 import (
 	"bytes"
+	"fmt"
 
 	"github.com/canopy-network/canopy/bft"
 	"github.com/canopy-network/canopy/lib"
+	"github.com/canopy-network/canopy/lib/crypto"
 	"google.golang.org/protobuf/proto"
 )
 
@@ -143,4 +145,51 @@ func (s *Sim) ByzPacemaker(i int, root, round uint64, to []int) []*Envelope {
 	n := s.Nodes[i]
 	m := &bft.Message{Qc: &lib.QuorumCertificate{Header: &lib.View{NetworkId: n.B.NetworkId, ChainId: n.B.ChainId, Height: Height, RootHeight: root, Round: round, Phase: lib.Phase_ROUND_INTERRUPT}}}
 	return s.ByzResign(i, m, nil, to)
+}
+
+// NewBlock returns a fresh well-formed block of the height with the simulator's standard certificate results (every
+// block the mock controller produces carries byte-identical results, so "different block, same results" is the default).
+func (s *Sim) NewBlock(tag string) ([]byte, *lib.CertificateResult) { return s.newBlock(tag) }
+
+// AltResults returns valid certificate results that differ from the standard ones.
+func (s *Sim) AltResults() *lib.CertificateResult {
+	a := crypto.Hash([]byte("mock"))[:20]
+	b := crypto.Hash([]byte("mock-alt"))[:20]
+	return &lib.CertificateResult{RewardRecipients: &lib.RewardRecipients{PaymentPercents: []*lib.PaymentPercents{
+		{Address: a, ChainId: lib.CanopyChainId, Percent: 60}, {Address: b, ChainId: lib.CanopyChainId, Percent: 40}}}}
+}
+
+// ByzMismatchProposal edits the Byzantine leader's queued PROPOSE envelopes so that the proposal differs from the
+// certificate it carries as HighQc in exactly one of (block, results): variant "block" = a different block with the same
+// results, variant "results" = the same block with different results. The HighQc itself stays the genuine certificate.
+func (s *Sim) ByzMismatchProposal(i int, envs []*Envelope, variant string) {
+	n := s.Nodes[i]
+	var blk []byte
+	var res *lib.CertificateResult
+	var signed *bft.Message
+	for _, e := range envs {
+		if e.From != i || e.Kind != "PROPOSE" || e.Msg.Qc == nil || e.Msg.HighQc == nil {
+			continue
+		}
+		if signed == nil {
+			m := proto.Clone(e.Msg).(*bft.Message)
+			switch variant {
+			case "block":
+				blk, _ = s.newBlock(fmt.Sprintf("byz-mismatch-%d", i))
+				m.Qc.Block, m.Qc.BlockHash = blk, n.B.BlockToHash(blk)
+				res = m.Qc.Results
+			default:
+				res = s.AltResults()
+				m.Qc.Results, m.Qc.ResultsHash = res, res.Hash()
+				blk = m.Qc.Block
+			}
+			n.voteJust, n.curBranch = nil, ""
+			signed = n.sign(m)
+			n.Sent = nil
+		}
+		e.Msg = signed
+	}
+	if signed != nil { // the leader itself continues with what it proposed
+		n.B.Block, n.B.Results, n.B.BlockHash = blk, res, nil
+	}
 }
